@@ -163,6 +163,12 @@ def classify(inst):
     return ", ".join(tags)
 
 
+def ambiguous(inst):
+    """verdict depends on whether a grid without any black cell is legal (published rules are silent;
+    pzpr accepts it, cspuz requires a black cell): not judged"""
+    return "all-white grid admissible" in classify(inst)
+
+
 _SHAPES_QUICK = [(1, 2), (1, 3), (1, 5), (2, 1), (4, 1), (2, 2), (2, 3), (3, 2), (3, 3), (2, 4), (4, 2), (2, 5),
                  (3, 4), (4, 3)]
 _SHAPES_MORE = [(1, 4), (1, 7), (6, 1), (5, 2), (2, 6), (6, 2), (1, 12), (3, 1)]
